@@ -45,6 +45,10 @@ pub enum Op16
     W3AddMutation,
     W3RemoveInsertion,
     W3RemoveMutation,
+    /// Fourth world reactor: `any_entity_event<EvA>` - the same event type that the first world reactor listens to as
+    /// a broadcast and the first entity world reactor as an entity-scoped event (three tables keyed by one type).
+    W4Add,
+    W4Remove,
 }
 
 pub fn all_ops16() -> Vec<Op16>
@@ -76,6 +80,8 @@ pub fn all_ops16() -> Vec<Op16>
     v.push(Op16::W3AddMutation);
     v.push(Op16::W3RemoveInsertion);
     v.push(Op16::W3RemoveMutation);
+    v.push(Op16::W4Add);
+    v.push(Op16::W4Remove);
     v
 }
 
@@ -93,6 +99,8 @@ pub enum Rec16
     Plain(u32),
     /// Third world reactor: 1 insertion / 2 mutation (entity index), 0 nothing readable
     World3(u8, i32),
+    /// Fourth world reactor: entity index of the entity event it read (-1: nothing readable)
+    World4(i32),
 }
 
 thread_local!
@@ -187,6 +195,20 @@ impl WorldReactor for WR3
     }
 }
 
+struct WR4;
+impl WorldReactor for WR4
+{
+    type StartingTriggers = ();
+    type Triggers = AnyEntityEventTrigger<EvA>;
+    fn reactor(self) -> SystemCommandCallback
+    {
+        SystemCommandCallback::new(|ev: EntityEvent<EvA>| {
+            let rec = if let Ok((e, _)) = ev.try_read() { Rec16::World4(ent_index(e)) } else { Rec16::World4(-1) };
+            LOG.with(|l| l.borrow_mut().push(rec));
+        })
+    }
+}
+
 fn plain_reactor(b: BroadcastEvent<EvB>)
 {
     let p = b.try_read().map(|e| e.0.0).unwrap_or(u32::MAX);
@@ -214,6 +236,7 @@ pub struct Model16
     pub payloads: u32,
     pub w3_ins: u8,
     pub w3_mut: u8,
+    pub w4_any: u8,
 }
 
 impl Model16
@@ -283,6 +306,7 @@ impl Model16
                         out.push(Rec16::Entity(1, ei as i32, d));
                         if let Some(x) = self.local[0][ei].as_mut() { *x += 1; }
                     }
+                    for _ in 0..self.w4_any { out.push(Rec16::World4(ei as i32)); }
                 }
             }
             Op16::FireInsertion(e) =>
@@ -314,6 +338,8 @@ impl Model16
             Op16::W3AddMutation => { self.w3_mut += 1; }
             Op16::W3RemoveInsertion => { if self.w3_ins > 0 { self.w3_ins -= 1; } }
             Op16::W3RemoveMutation => { if self.w3_mut > 0 { self.w3_mut -= 1; } }
+            Op16::W4Add => { self.w4_any += 1; }
+            Op16::W4Remove => { if self.w4_any > 0 { self.w4_any -= 1; } }
             Op16::Despawn(e) =>
             {
                 let ei = e as usize;
@@ -345,6 +371,7 @@ impl Model16
             Op16::WAdd(e) => self.w_broadcast < 2 && self.w_entmut[e as usize] < 2,
             Op16::W2AddB => self.w2_b < 2,
             Op16::W3AddMutation => self.w3_mut < 2,
+            Op16::W4Add => self.w4_any < 2,
             Op16::Despawn(e) => self.alive[e as usize],
             _ => true,
         }).collect()
@@ -356,6 +383,9 @@ pub struct Key16
 {
     model: Model16,
     has_local: [[bool; N_ENTS]; 2],
+    /// The implementation's registration tables (non-empty lists, each sorted, entries sorted): two histories are merged
+    /// only if the implementation ended up with the same registrations, not merely the model.
+    tables: Vec<String>,
 }
 
 fn mutate_sys(In(e): In<Entity>, mut c: Commands, mut rm: ReactiveMut<CA>)
@@ -372,7 +402,7 @@ pub fn run16(hist: &[Op16]) -> StepResult<Key16>
     app.add_world_reactor_with(WR3, insertion::<CA>());
     app.add_plugins(ReactPlugin);
     app.world_mut().insert_react_resource(RA(0));
-    app.add_world_reactor(WR).add_entity_reactor(ER1).add_entity_reactor(ER2);
+    app.add_world_reactor(WR).add_entity_reactor(ER1).add_entity_reactor(ER2).add_world_reactor(WR4);
     let ents: Vec<Entity> = (0..N_ENTS).map(|_| app.world_mut().spawn_empty().id()).collect();
     ENTS.with(|v| *v.borrow_mut() = ents.clone());
     for e in ents.iter() { let e = *e; app.world_mut().react(|rc| rc.insert(e, CA(0))); }
@@ -470,6 +500,8 @@ pub fn run16(hist: &[Op16]) -> StepResult<Key16>
                 Op16::W3AddMutation => { world.syscall((), |mut c: Commands, reactor: Reactor<WR3>| { reactor.add(&mut c, mutation::<CA>()); }); }
                 Op16::W3RemoveInsertion => { world.syscall((), |mut c: Commands, reactor: Reactor<WR3>| { reactor.remove(&mut c, insertion::<CA>()); }); }
                 Op16::W3RemoveMutation => { world.syscall((), |mut c: Commands, reactor: Reactor<WR3>| { reactor.remove(&mut c, mutation::<CA>()); }); }
+                Op16::W4Add => { world.syscall((), |mut c: Commands, reactor: Reactor<WR4>| { reactor.add(&mut c, any_entity_event::<EvA>()); }); }
+                Op16::W4Remove => { world.syscall((), |mut c: Commands, reactor: Reactor<WR4>| { reactor.remove(&mut c, any_entity_event::<EvA>()); }); }
                 Op16::Despawn(e) => { world.try_despawn(ents[e as usize]); }
                 Op16::WAdd(e) =>
                 {
@@ -547,7 +579,15 @@ pub fn run16(hist: &[Op16]) -> StepResult<Key16>
         has_local[0][ei] = hooks::has_entity_world_local::<ER1>(world, ents[ei]);
         has_local[1][ei] = hooks::has_entity_world_local::<ER2>(world, ents[ei]);
     }
-    StepResult{ key: Key16{ model, has_local }, violations, stop }
+    let mut tables: Vec<String> = if stop { Vec::new() } else
+    {
+        hooks::snapshot(app.world_mut()).tables.into_iter().filter(|t| !t.reactors.is_empty()).map(|mut t| {
+            t.reactors.sort();
+            format!("{:?}/{:?}/{:?}/{:?}", t.kind, t.type_id, t.entity, t.reactors)
+        }).collect()
+    };
+    tables.sort();
+    StepResult{ key: Key16{ model, has_local, tables }, violations, stop }
 }
 
 pub fn enabled16(hist: &[Op16]) -> Vec<Op16>
